@@ -1209,6 +1209,82 @@ ctl('e1-modules-not-told-on-switch-c01', 'C01', 'E1', RT,
 """,
     """		_ = m
 """, 'leaveSession:modules-told', 'seed C01-14')
+# ---- round 8 rules
+ctl('s-members-add-evicts-another', 'C02', 'S-Members', 'models/session.go',
+    """	s.participants[p.ID] = p
+}""",
+    """	for id, other := range s.participants {
+		if other.Responder == p.Responder {
+			delete(s.participants, id)
+		}
+	}
+	s.participants[p.ID] = p
+}""", 'AddParticipant:exact', 'seed C02-18')
+ctl('s-members-foreign-writer', 'C03', 'S-Members', 'models/session.go',
+    """func (s *Session) ParticipantCount() int {
+	s.participantMutex.RLock()
+	defer s.participantMutex.RUnlock()
+
+	return len(s.participants)
+}""",
+    """func (s *Session) ParticipantCount() int {
+	s.participantMutex.Lock()
+	defer s.participantMutex.Unlock()
+
+	for id, p := range s.participants {
+		if p == nil {
+			delete(s.participants, id)
+		}
+	}
+	return len(s.participants)
+}""", 'writer[participants]')
+ctl('c7-snapshot-read-before-registration', 'C01', 'C7', RT,
+    """	session.AddParticipant(participant)
+	h.stopFrameHandling = session.HandleFrame(handleFrame)
+""",
+    """	entitiesBefore := models.EntitiesToProtobuf(session.Entities())
+	_ = entitiesBefore
+	session.AddParticipant(participant)
+	h.stopFrameHandling = session.HandleFrame(handleFrame)
+""", 'reads-after-registration', 'seed C01-19 (the read, wherever its value ends up)')
+ctl('e6-frames-cancelled-by-refused-join', 'C11', 'E6', RT,
+    """	if h.currentSession != nil && h.Sessions.GlobalSessionID(h.currentSession.ID) == req.SessionId {""",
+    """	if h.stopFrameHandling != nil {
+		h.stopFrameHandling()
+	}
+	if h.currentSession != nil && h.Sessions.GlobalSessionID(h.currentSession.ID) == req.SessionId {""",
+    'cancels-frames-outside-leave', 'seed C11-17')
+ctl('i2-client-id-trimmed', 'C18', 'I2', RT,
+    """	h.clientID = req.Header.Get(httpcmn.HeaderPosemeshClientID)""",
+    """	h.clientID = strings.ToLower(req.Header.Get(httpcmn.HeaderPosemeshClientID))""",
+    'HandleConnect:client-id', 'seed C18-18', edits=[dict(file=RT, old='import (\n\t"context"', new='import (\n\t"strings"\n\t"context"')])
+ctl('q8-early-return-after-footprint-change', 'C20', 'Q8', GSP,
+    """	// calculate the min cell and max cell again:
+	minPoint = Sub(existingQuad.Center, existingQuad.Extents)""",
+    """	if existingQuad.Extents.x > 64 {
+		return
+	}
+
+	// calculate the min cell and max cell again:
+	minPoint = Sub(existingQuad.Center, existingQuad.Extents)""", 'mergeQuads:cells-follow-footprint', 'seed C20-17')
+ctl('q9-conversion-cleans-components', 'C20', 'Q9', 'modules/dagaz/math.go',
+    """		x: point.GetX(),""",
+    """		x: float32(math.Max(-1e6, math.Min(1e6, float64(point.GetX())))),""", 'NewVector3fFromProtobuf:verbatim', 'seed C20-18')
+ctl('f1-generator-lock-removed', 'C10', 'F1', 'models/id.go',
+    """func (g *SequentialIDGenerator) New() uint32 {
+	g.mutex.Lock()
+	defer g.mutex.Unlock()
+""",
+    """func (g *SequentialIDGenerator) New() uint32 {
+""", 'SequentialIDGenerator', 'seed C10-18 (the generator is shared by everybody who shares its owner)')
+ctl('e7-lookup-normalises-the-id', 'C07', 'E7', 'models/session.go',
+    """func (s *SessionStore) GetByGlobalID(v string) (*Session, bool) {
+	s.initOnce.Do(s.init)
+""",
+    """func (s *SessionStore) GetByGlobalID(v string) (*Session, bool) {
+	s.initOnce.Do(s.init)
+	v = strings.ToLower(v)
+""", 'GetByGlobalID:verbatim-lookup', 'seed C07-18: a parameter the function re-assigns', edits=[dict(file='models/session.go', old='import (\n\t"context"', new='import (\n\t"strings"\n\t"context"')])
 # ---- ids / registry / silent drops / flag set
 ctl('d5-asset-id-from-set-size', 'C10', 'D5', 'modules/odal/state.go',
     """	return s.assetInstanceIDs.New()""",
